@@ -266,7 +266,7 @@ func buildFile(s *Step) ([]byte, bool) {
 
 type outcome struct {
 	imports, importsOK, mixed, repeated, respelt, rejectedMeta, malformed, firstImport, afterRestart, probes int
-	trace                                                                                           []string
+	trace                                                                                                    []string
 }
 
 func geq(a, b map[string][3]int64) (string, bool) {
